@@ -549,6 +549,17 @@ func (env *Env) callSpec(n *ECall) Val {
 		return Val{T: sx("str.upper", arg(0).T), Ty: tString}
 	case "itoa":
 		return Val{T: sx("str.itoa", arg(0).T), Ty: tString}
+	case "caseFoldInstance":
+		// the instance contains(a,b) ==> contains(lower(a),lower(b)) of the case-folding axiom, as a formula
+		a, b := arg(0), arg(1)
+		return Val{T: implies(sx("str.contains", a.T, b.T), sx("str.contains", sx("str.lower", a.T), sx("str.lower", b.T))), Ty: tBool}
+	case "trimOf":
+		a, b := arg(0), arg(1)
+		t := env.e.W.UF("str.trim", []string{"String", "String"}, "String", a.T, b.T)
+		if !strings.Contains(t, "q.") && !strings.Contains(t, "!q") {
+			env.e.emit(fmt.Sprintf("(assert (str.contains %s %s))", a.T, t)) // Trim returns a substring of its argument
+		}
+		return Val{T: t, Ty: tString}
 	case "substr":
 		return Val{T: sx("str.substr", arg(0).T, arg(1).T, sx("-", arg(2).T, arg(1).T)), Ty: tString}
 	case "finite":
